@@ -88,7 +88,7 @@ def closest_contract(op, go_line, lean_line):
 class C12(Prop):
     id = "C12"
     lean_modules = ["Fan2go.Props.C12"]
-    fact_modules = ["Fan2go.Props.Trans", "Fan2go.Props.Trans2FindClosest", "Fan2go.Props.Trans2Keys"]
+    fact_modules = ["Fan2go.Props.Trans", "Fan2go.Props.Trans2FindClosest", "Fan2go.Props.Trans2Keys", "Fan2go.Props.Trans3A", "Fan2go.Props.Trans3B"]
     rule = ("closest: exhaustive key sets over a small universe x requests -50..305 + random full-size key sets; "
             "distinct: PWM-map shapes (identity, sparse, quantiser, plateau, non-monotone, constant, single); "
             "setpwm: real controller.setPwm on a virtual device (hwmon / file fans) or on real scripts (cmd fans). non-trivial = distinct (|keys|>=2, request strictly "
